@@ -178,6 +178,7 @@ func (p *instancePool) warmUpGun(ctx context.Context) error {
 }
 
 type poolAsyncRunHandle struct {
+	poolCtx             context.Context // Canceled only by pool Run caller or on pool Run return.
 	runCtx              context.Context
 	runCancel           context.CancelFunc
 	instanceStartCtx    context.Context
@@ -191,6 +192,7 @@ type poolAsyncRunHandle struct {
 }
 
 func (p *instancePool) runAsync(runCtx context.Context) (*poolAsyncRunHandle, error) {
+	poolCtx := runCtx
 	// Canceled in case all instances finish, fail or run runCancel.
 	runCtx, runCancel := context.WithCancel(runCtx)
 	_ = runCancel
@@ -222,6 +224,7 @@ func (p *instancePool) runAsync(runCtx context.Context) (*poolAsyncRunHandle, er
 		startRes <- startResult{started, err}
 	}()
 	return &poolAsyncRunHandle{
+		poolCtx:             poolCtx,
 		runCtx:              runCtx,
 		runCancel:           runCancel,
 		instanceStartCtx:    instanceStartCtx,
@@ -317,9 +320,11 @@ func (ah *runAwaitHandle) awaitRun() {
 }
 
 func (ah *runAwaitHandle) onErrAwaited(err error) {
+	// runCtx is canceled by pool itself when all instances are finished, but provider and
+	// aggregator errors returned after that should not be lost: wait for pool Run return.
 	select {
 	case ah.awaitErr <- err:
-	case <-ah.runCtx.Done():
+	case <-ah.poolCtx.Done():
 		if err != ah.runCtx.Err() {
 			ah.log.Debug("Error suppressed after run cancel", zap.Error(err))
 		}
